@@ -95,8 +95,71 @@ def evaluate(ctx, cases, res, tag="c06"):
     return bad, obs
 
 
+def rerun_cases(ctx):
+    """the SAME task object run twice: the first run fails at one command (not allowed), the second time every command succeeds.
+    The second run must again execute before hooks, every command in order and the after hooks, and return no error."""
+    rng = vlib.rng_for(ctx.seed, "C06rerun")
+    cases = []
+    for _ in range(60 if ctx.tier == "thorough" else 16):
+        nc = rng.randint(1, 4)
+        p = rng.randrange(nc)
+        code = rng.choice([1, 2, 7, 130, 255])
+        nb, na = rng.choice([0, 1, 2]), rng.choice([0, 1, 2])
+        cases.append({"kind": "rerun", "nc": nc, "p": p, "code": code, "nb": nb, "na": na})
+    return cases
+
+
+def run_reruns(ctx, res, cases):
+    ecases = []
+    for k, c in enumerate(cases):
+        cmds = []
+        for i in range(c["nc"]):
+            body = 'if [ -f "$WORKDIR/once" ]; then exit 0; else : > "$WORKDIR/once"; exit %d; fi' % c["code"] if i == c["p"] else "exit 0"
+            cmds.append('echo "c0.%d" >> "$TRACE"; %s' % (i, body))
+        t = {"name": "t", "commands": cmds, "before": ['echo b%d >> "$TRACE"' % i for i in range(c["nb"])], "after": ['echo a%d >> "$TRACE"' % i for i in range(c["na"])], "variations": None}
+        ecases.append({"id": k, "dir": ctx.workdir, "tasks": [t, {"name": "mark", "commands": ['echo MARK >> "$TRACE"']}],
+                       "plan": [{"op": "run", "tasks": [0]}, {"op": "run", "tasks": [1]}, {"op": "run", "tasks": [0]}], "format": "raw"})
+    obs, logs = vlib.run_engine(ctx.workdir, "taskrun", ecases, tag="rerun")
+    items = []
+    for k, c in enumerate(cases):
+        o = obs.get(k)
+        res.evaluations += 1
+        res.count("rerun")
+        res.nontrivial_keys.add(json.dumps(c, sort_keys=True))
+        if not o or not o.get("results") or o.get("panic") or o.get("hung"):
+            res.violations.append({"class": None, "what": "running a task a second time crashed or hung", "case": c, "observed": o})
+            continue
+        tr = o.get("trace") or []
+        second = tr[tr.index("MARK") + 1:] if "MARK" in tr else []
+        runs = [r for r in o["results"] if r["task"] == 0]
+        c["_obs"] = {"trace": tr, "errs": [r["err"] for r in runs]}
+        a2 = {"cond": None, "before": [("exit", 0)] * c["nb"], "jobs": [[(("exit", 0), []) for _ in range(c["nc"])]], "after": [("exit", 0)] * c["na"], "allow": False, "novar": True}
+        fake = {"output_b64": "", "exit_code": 0, "err": runs[-1]["err"] if len(runs) == 2 else True, "errored": False, "skipped": False}
+        items.append("(%d%%N, (%s, %s))" % (k, tasklib.coq_task(a2), tasklib.coq_observed(fake, second)))
+        if len(runs) != 2 or not runs[0]["err"] or runs[1]["err"]:
+            res.violations.append({"class": None, "what": "run twice: the first run must report the failure, the second (every command succeeds) must report none",
+                                   "case": c, "observed": c["_obs"]})
+    bad = set()
+    for rc, out, start, cnt in vlib.coq_eval_sharded(ctx.workdir, "cases_c06rerun", HEADER, items, lambda: FOOTER, shard=500):
+        if rc != 0:
+            res.mismatches.append({"what": "cases.v did not evaluate", "detail": out[-1500:]})
+            continue
+        bad.update(vlib.nums(vlib.coq_printed(out).get("BAD_TRACE", "")))
+        res.traces_validated += cnt
+    for k in sorted(bad):
+        res.violations.append({"class": None, "what": "run twice: the second run did not execute before hooks, every command in order and the after hooks",
+                               "case": {x: y for x, y in cases[k].items() if x != "_obs"}, "observed": cases[k].get("_obs")})
+    for c in cases:
+        c.pop("_obs", None)
+
+
 def run(ctx):
     res = vlib.Result()
+    if ctx.replay_cases and all(c.get("kind") == "rerun" for c in ctx.replay_cases):
+        run_reruns(ctx, res, ctx.replay_cases)
+        res.rule = "replay of run-twice cases"
+        res.samples = ctx.replay_cases[:2]
+        return res
     cases = ctx.replay_cases if ctx.replay_cases else gen_cases(ctx)
     for k, c in enumerate(cases):
         c["id"] = k
@@ -116,5 +179,7 @@ def run(ctx):
     flagged = set(bad.get("BAD_TRACE", ()))
     for cid in sorted(bad.get("BAD_STATUS", set()) - flagged):
         res.mismatches.append({"what": "skipped/errored/exit-code/error differ from the model (C07's subject)", "case": cases[cid], "observed": obs.get(cid)})
+    if not ctx.replay_cases:
+        run_reruns(ctx, res, rerun_cases(ctx))
     res.samples = [cases[3], cases[len(cases) // 2]]
     return res
